@@ -138,13 +138,15 @@ ev_badrequest(int p, int k)
 		return;
 	nni_msg *m;
 	int      live0 = env_msg_live;
-	if (k == 0) {
+	if (k == 0 || k == 2) {
 		nni_msg_alloc(&m, 9 * 4 + 2);
 		u8 *b = nni_msg_body(m);
 		for (size_t j = 0; j < 9 * 4 + 2; j++)
 			b[j] = ND(u8);
 		for (int h = 0; h < 9; h++)
 			b[4 * h] = 0x01; /* more hops than ttl (8), no terminator in reach */
+		if (k == 2)
+			b[4 * 8] = 0x81; /* well formed, but its terminator is the 9th word: exactly one hop more than MAXTTL (8) allows */
 	} else {
 		nni_msg_alloc(&m, 6);
 		u8 *b = nni_msg_body(m);
@@ -158,7 +160,7 @@ ev_badrequest(int p, int k)
 	sweep();
 	CHECK(env_msg_live == live0, "C11: a malformed request is freed exactly once");
 	CHECK((!nni_list_empty(&sock.recvpipes)) == nrecvp, "C11: a malformed request is never offered to the application");
-	if (k == 0) {
+	if (k == 0 || k == 2) {
 		CHECK(!kpipe[p].closed && kpipe[p].recv_aio != NULL, "C13: a request with more hops than MAXTTL is dropped without disconnecting");
 		WITNESS("too many hops dropped");
 	} else {
